@@ -344,17 +344,14 @@ impl UnverifiedBiscuit {
             signature,
         };
 
-        let mut symbols = self.symbols.clone();
+        let symbols = self.symbols.clone();
         let mut blocks = self.blocks.clone();
 
         let container =
             self.container
                 .append_serialized(&next_keypair, payload, Some(external_signature))?;
 
-        let token_block = proto_block_to_token_block(&block, Some(external_key))?;
-        for key in &token_block.public_keys.keys {
-            symbols.public_keys.insert_fallible(key)?;
-        }
+        proto_block_to_token_block(&block, Some(external_key))?;
 
         blocks.push(block);
 
